@@ -12,6 +12,7 @@ import math
 from fractions import Fraction
 
 import numpy as _np
+import types as _types
 import z3
 
 from . import arrays as A
@@ -89,6 +90,32 @@ class _NdArrayLike(_np.ndarray, metaclass=_NdMeta):
     """`np.ndarray` as seen by loaded modules (isinstance target)"""
 
 
+_REWRAPPED = {}
+
+
+def _as_engine_array(r):
+    if type(r) is _np.ndarray and r.dtype == object and r.size and any(isinstance(x, (Sym, SymBool, SymComplex)) for x in r.reshape(-1)):
+        return r.view(A.SymArray)
+    return r
+
+
+def _rewrapped(f):
+    """a numpy function that has no shim: it runs as it is; an object array of symbolic values it returns (np.pad, np.cumsum, np.roll ... keep the
+    dtype but drop the subclass for plain-ndarray inputs) is handed back as an array of the engine, so that masks and comparisons on it stay symbolic"""
+    w = _REWRAPPED.get(f)
+    if w is None:
+        def w(*a, **k):
+            r = f(*a, **k)
+            if type(r) is tuple:
+                return tuple(_as_engine_array(x) for x in r)
+            return _as_engine_array(r)
+
+        w.__name__ = getattr(f, "__name__", "numpy_function")
+        w.__wrapped__ = f
+        _REWRAPPED[f] = w
+    return w
+
+
 class SymNP:
     """Module-like proxy for numpy."""
 
@@ -101,7 +128,10 @@ class SymNP:
         self._sfa = symbolic_float_arrays
 
     def __getattr__(self, name):
-        return getattr(_np, name)
+        v = getattr(_np, name)
+        if isinstance(v, _types.FunctionType) or type(v).__name__ in ("_ArrayFunctionDispatcher", "builtin_function_or_method"):
+            return _rewrapped(v)
+        return v
 
     @property
     def pi(self):
@@ -329,7 +359,13 @@ class SymNP:
         if hasattr(a, "_np_argmax"):
             return a._np_argmax()
         if isinstance(a, _np.ndarray) and a.dtype == object:
+            was_sym = isinstance(a, A.SymArray)
             a = _np.asarray(a.tolist(), dtype=float)
+            res = _np.argmax(a, axis=axis, **kw)
+            if was_sym and isinstance(res, _np.ndarray) and res.ndim:
+                # stays an array of the engine: it may be looked up next with index arrays that hold symbolic integers
+                return res.astype(object).view(A.SymArray)
+            return res
         return _np.argmax(a, axis=axis, **kw)
 
     def searchsorted(self, a, v, side="left", sorter=None):
@@ -509,7 +545,7 @@ class SymNP:
                 return tuple(conc(w) for w in v)
             return operator.index(v) if isinstance(v, Sym) else v
 
-        return _np.pad(x, conc(pad_width), mode=mode, **kw)
+        return _as_engine_array(_np.pad(x, conc(pad_width), mode=mode, **kw))
 
     def indices(self, dimensions, dtype=int, **kw):
         import operator
